@@ -212,22 +212,65 @@ Section SpacesExt.
   Hypothesis HS : forall x, S x -> assoc x t = assoc x t'.
   Hypothesis Hcl : forall x rhs, S x -> assoc x t = Some rhs -> forall c, In c (all_refs rhs) -> S c.
 
-  Lemma spaces_ext f : forall e tr w,
+  Lemma expr_head_ext f : forall e,
     (forall c, In c (all_refs e) -> S c) ->
-    spaces t f e tr w = spaces t' f e tr w.
+    expr_head (Some t) f e = expr_head (Some t') f e.
   Proof.
-    induction f as [|f IH]; intros e tr w He; [reflexivity|].
+    induction f as [|f IH]; intros e He; [reflexivity|]. rewrite !expr_head_S.
+    destruct e; try reflexivity; try (apply IH; exact He).
+    - cbn [followed]. assert (Hn : S name) by (apply He; left; reflexivity).
+      rewrite <- (HS name Hn). destruct (assoc name t) as [rhs|] eqn:E; [|reflexivity].
+      apply IH. eapply Hcl; eauto.
+    - destruct children as [|c r]; [reflexivity|]. apply IH. intros x Hx. apply He. cbn.
+      apply in_or_app. left. exact Hx.
+  Qed.
+
+  Lemma expr_tail_ext f : forall e,
+    (forall c, In c (all_refs e) -> S c) ->
+    expr_tail (Some t) f e = expr_tail (Some t') f e.
+  Proof.
+    induction f as [|f IH]; intros e He; [reflexivity|]. rewrite !expr_tail_S.
+    destruct e; try reflexivity; try (apply IH; exact He).
+    - cbn [followed]. assert (Hn : S name) by (apply He; left; reflexivity).
+      rewrite <- (HS name Hn). destruct (assoc name t) as [rhs|] eqn:E; [|reflexivity].
+      apply IH. eapply Hcl; eauto.
+    - destruct (last_opt children) as [c|] eqn:El; [|reflexivity]. apply last_opt_In in El.
+      apply IH. intros x Hx. apply He. cbn. apply in_flat_map. exists c. split; assumption.
+  Qed.
+
+  Lemma adjacent_terminals_ext f cs :
+    (forall c, In c (flat_map all_refs cs) -> S c) ->
+    adjacent_terminals (Some t) f cs = adjacent_terminals (Some t') f cs.
+  Proof.
+    induction cs as [|a r IH]; intro Hc; [reflexivity|]. destruct r as [|b r']; [reflexivity|].
+    cbn [adjacent_terminals].
+    assert (Hr : adjacent_terminals (Some t) f (b :: r') = adjacent_terminals (Some t') f (b :: r')).
+    { apply IH. intros x Hx. apply Hc. cbn [flat_map]. apply in_or_app. right. exact Hx. }
+    rewrite (expr_tail_ext f a), (expr_head_ext f b).
+    - destruct (expr_tail (Some t') f a) as [ta| | |]; cbn [obind]; try reflexivity.
+      destruct (expr_head (Some t') f b) as [hb| | |]; cbn [obind]; try reflexivity.
+      destruct ta; try exact Hr. destruct hb; try exact Hr. reflexivity.
+    - intros x Hx. apply Hc. cbn [flat_map]. apply in_or_app. right. apply in_or_app. left. exact Hx.
+    - intros x Hx. apply Hc. cbn [flat_map]. apply in_or_app. left. exact Hx.
+  Qed.
+
+  Lemma spaces_ext f : forall e tr w j,
+    (forall c, In c (all_refs e) -> S c) ->
+    spaces t f e tr w j = spaces t' f e tr w j.
+  Proof.
+    induction f as [|f IH]; intros e tr w j He; [reflexivity|].
     rewrite !spaces_S.
     assert (Hall : forall cs, (forall c, In c (flat_map all_refs cs) -> S c) ->
-                              sp_all (fun c => spaces t f c tr w) cs
-                              = sp_all (fun c => spaces t' f c tr w) cs).
+                              sp_all (fun c => spaces t f c tr w false) cs
+                              = sp_all (fun c => spaces t' f c tr w false) cs).
     { intros cs Hcs. apply sp_all_ext. apply Forall_forall. intros c Hc. apply IH.
       intros x Hx. apply Hcs. apply in_flat_map. exists c. split; assumption. }
     destruct e; try reflexivity; try (apply IH; exact He); try (apply Hall; exact He).
     - assert (Hn : S name) by (apply He; left; reflexivity).
       rewrite <- (HS name Hn). destruct (assoc name t) as [rhs|] eqn:E; [|reflexivity].
       apply IH. eapply Hcl; eauto.
-    - rewrite (Hall children He). reflexivity.
+    - rewrite (Hall children He). destruct j; cbn [follow_of]; [reflexivity|].
+      rewrite (adjacent_terminals_ext f children He). reflexivity.
   Qed.
 End SpacesExt.
 
@@ -244,28 +287,72 @@ Proof.
   - congruence.
 Qed.
 
-Lemma spaces_mono t f : forall e tr w r f',
-  spaces t f e tr w = r -> r <> OutOfFuel -> (f <= f')%nat -> spaces t f' e tr w = r.
+Lemma expr_head_mono follow f : forall e r f',
+  expr_head follow f e = r -> r <> OutOfFuel -> (f <= f')%nat -> expr_head follow f' e = r.
 Proof.
-  induction f as [|f IH]; intros e tr w r f' Hr Hne Hle; [cbn in Hr; congruence|].
+  induction f as [|f IH]; intros e r f' Hr Hne Hle; [cbn in Hr; congruence|].
+  destruct f' as [|f']; [lia|]. assert (Hle' : (f <= f')%nat) by lia.
+  rewrite expr_head_S in *.
+  destruct e; try exact Hr; try (eapply IH; eauto; fail).
+  - destruct (followed follow name); [eapply IH; eauto|exact Hr].
+  - destruct children; [exact Hr|eapply IH; eauto].
+Qed.
+
+Lemma expr_tail_mono follow f : forall e r f',
+  expr_tail follow f e = r -> r <> OutOfFuel -> (f <= f')%nat -> expr_tail follow f' e = r.
+Proof.
+  induction f as [|f IH]; intros e r f' Hr Hne Hle; [cbn in Hr; congruence|].
+  destruct f' as [|f']; [lia|]. assert (Hle' : (f <= f')%nat) by lia.
+  rewrite expr_tail_S in *.
+  destruct e; try exact Hr; try (eapply IH; eauto; fail).
+  - destruct (followed follow name); [eapply IH; eauto|exact Hr].
+  - destruct (last_opt children); [eapply IH; eauto|exact Hr].
+Qed.
+
+Lemma adjacent_terminals_mono follow f f' cs : forall r,
+  adjacent_terminals follow f cs = r -> r <> OutOfFuel -> (f <= f')%nat ->
+  adjacent_terminals follow f' cs = r.
+Proof.
+  induction cs as [|a rest IH]; intros r Hr Hne Hle; [exact Hr|].
+  destruct rest as [|b rest']; [exact Hr|]. cbn [adjacent_terminals] in *.
+  destruct (expr_tail follow f a) as [ta|e1|s1|] eqn:Ea; cbn [obind] in Hr; [| | |congruence].
+  2:{ rewrite (expr_tail_mono _ _ _ _ _ Ea) by (try discriminate; exact Hle). exact Hr. }
+  2:{ rewrite (expr_tail_mono _ _ _ _ _ Ea) by (try discriminate; exact Hle). exact Hr. }
+  rewrite (expr_tail_mono _ _ _ _ _ Ea) by (try discriminate; exact Hle). cbn [obind].
+  destruct (expr_head follow f b) as [hb|e2|s2|] eqn:Eb; cbn [obind] in Hr; [| | |congruence].
+  2:{ rewrite (expr_head_mono _ _ _ _ _ Eb) by (try discriminate; exact Hle). exact Hr. }
+  2:{ rewrite (expr_head_mono _ _ _ _ _ Eb) by (try discriminate; exact Hle). exact Hr. }
+  rewrite (expr_head_mono _ _ _ _ _ Eb) by (try discriminate; exact Hle). cbn [obind].
+  destruct ta; try (apply IH; assumption). destruct hb; try (apply IH; assumption). exact Hr.
+Qed.
+
+Lemma spaces_mono t f : forall e tr w j r f',
+  spaces t f e tr w j = r -> r <> OutOfFuel -> (f <= f')%nat -> spaces t f' e tr w j = r.
+Proof.
+  induction f as [|f IH]; intros e tr w j r f' Hr Hne Hle; [cbn in Hr; congruence|].
   destruct f' as [|f']; [lia|]. assert (Hle' : (f <= f')%nat) by lia.
   rewrite spaces_S in *.
-  assert (Hall : forall cs r, sp_all (fun c => spaces t f c tr w) cs = r -> r <> OutOfFuel ->
-                              sp_all (fun c => spaces t f' c tr w) cs = r).
+  assert (Hall : forall cs r, sp_all (fun c => spaces t f c tr w false) cs = r -> r <> OutOfFuel ->
+                              sp_all (fun c => spaces t f' c tr w false) cs = r).
   { intros cs r0 H0 Hne0. eapply sp_all_mono; [|exact H0|exact Hne0].
     apply Forall_forall. intros c _ Hc. eapply IH; eauto. }
   destruct e; try exact Hr; try (eapply IH; eauto; fail); try (eapply Hall; eauto; fail).
   - destruct (assoc name t); [eapply IH; eauto|exact Hr].
-  - destruct (sp_all (fun c => spaces t f c tr w) children) as [[]|e|s|] eqn:E; cbn [obind] in Hr.
-    + rewrite (Hall _ _ E) by discriminate. exact Hr.
+  - destruct (sp_all (fun c => spaces t f c tr w false) children) as [[]|e|s|] eqn:E; cbn [obind] in Hr.
+    + rewrite (Hall _ _ E) by discriminate. cbn [obind]. destruct w; [|exact Hr].
+      destruct (adjacent_terminals (follow_of t j) f children) as [adj|e|s|] eqn:Ea; cbn [obind] in Hr.
+      * rewrite (adjacent_terminals_mono _ _ f' _ _ Ea) by (try discriminate; exact Hle'). exact Hr.
+      * rewrite (adjacent_terminals_mono _ _ f' _ _ Ea) by (try discriminate; exact Hle'). exact Hr.
+      * rewrite (adjacent_terminals_mono _ _ f' _ _ Ea) by (try discriminate; exact Hle'). exact Hr.
+      * congruence.
     + rewrite (Hall _ _ E) by discriminate. exact Hr.
     + rewrite (Hall _ _ E) by discriminate. exact Hr.
     + congruence.
 Qed.
 
-Lemma spaces_fine_agree t f1 f2 e tr w :
-  fine (spaces t f1 e tr w) -> fine (spaces t f2 e tr w) ->
-  spaces t f1 e tr w = spaces t f2 e tr w.
+Lemma spaces_fine_agree t f1 f2 e tr w j :
+  fine (spaces t f1 e tr w j) -> fine (spaces t f2 e tr w j) ->
+  spaces t f1 e tr w j = spaces t f2 e tr w j.
 Proof.
   intros H1 H2. destruct (Nat.le_ge_cases f1 f2) as [Hle|Hle].
   - symmetry. eapply spaces_mono; [reflexivity| |exact Hle].
